@@ -11,7 +11,8 @@ except ImportError:
 ALL = ["C%02d" % i for i in range(1, 21)]
 GENERIC = (" Generic obligations of every check: (RANGE-0): no loop or comprehension of a function the rules analyse iterates a bounded slice of a "
            "collection, so what the rules state for every item is done for all of them; (TRUTHY-0) no enumerate / range index is tested by truthiness; "
-           "(NAME-0) every delay name an analysed class cancels, checks or runs is a name it arms.")
+           "(NAME-0) every delay name an analysed class cancels, checks or runs is a name it arms; (ROUND-0) no value is scaled up by a constant after "
+           "it was truncated; (LOOP-0) every for loop of an analysed function can reach its second item.")
 checks = []
 for p in ALL:
     if p not in CLAIMS:
